@@ -257,7 +257,8 @@ impl<B: StarkField> Spec<B> {
                         // stride = a multiple of the cycle length
                         let room = (n / c).ilog2();
                         let stride = c << rng.below(room as u64 + 1);
-                        let first = rng.below(stride as u64) as usize;
+                        // half of the multi-step assertions start at step 0 (where single assertions cluster too)
+                        let first = if rng.below(2) == 0 { 0 } else { rng.below(stride as u64) as usize };
                         assertions.push(AssertSpec { column: j, kind: AssertKind::Periodic { first, stride } });
                         multi[j] = Some((first, stride));
                     },
@@ -269,7 +270,8 @@ impl<B: StarkField> Spec<B> {
                         if stride < 2 || n / stride < 2 {
                             continue;
                         }
-                        let first = rng.below(stride as u64) as usize;
+                        // half of the multi-step assertions start at step 0 (where single assertions cluster too)
+                        let first = if rng.below(2) == 0 { 0 } else { rng.below(stride as u64) as usize };
                         assertions.push(AssertSpec { column: j, kind: AssertKind::Sequence { first, stride } });
                         multi[j] = Some((first, stride));
                     },
